@@ -49,7 +49,11 @@ def c09_search(tier, seed, tmp, broken, k_fail, s_fail, ev_cov):
             jie.append(86400 * int(td) + int(sod))
     jie.sort()
     n = 1500 if tier == "quick" else 20000
-    times = [rand_time(rng) for _ in range(n)]
+    # fixed probes first: instants in the first months of the D4 junction years, where the search is known to be incomplete
+    # (known findings D4-c09-search-*: they must reproduce in every run), and one ordinary instant
+    times = [(9, 1, 20, 1, 56, 30), (24, 1, 20, 1, 56, 30), (24, 3, 3, 1, 56, 30), (25, 1, 20, 1, 56, 30), (25, 3, 3, 1, 56, 30),
+             (240, 1, 20, 1, 56, 30), (240, 3, 3, 1, 56, 30), (2024, 2, 10, 14, 30, 0)]
+    times += [rand_time(rng) for _ in range(n)]
     # every double-hour of a few sampled days (13 probes: 0:30, 1:30, 3:30 … 23:30)
     for _ in range(40 if tier == "quick" else 400):
         y, m, d = rand_date(rng, 2, 9998)
@@ -105,7 +109,8 @@ def c09_search(tier, seed, tmp, broken, k_fail, s_fail, ev_cov):
                 hit = True
         if not hit:
             n_incomplete += 1
-            s_fail.append(("op", sline + " => " + r + "   (no result inside the double-hour of %r)" % (t,), sline + " => must contain an instant of that double-hour"))
+            s_fail.append(("op", "ec.search.incomplete %d %d %d %d %d %d : " % t + sline + " => " + r + "   (no result inside the double-hour of this instant)",
+                           sline + " => must contain an instant of that double-hour"))
     BH = run(TYMEH, "exec", back_ops)
     BS = run(TYMED, "specexec", back_ops)
     n_unsound = 0
